@@ -54,6 +54,8 @@ def enc_op(op):
         ok, v = parse_raw(op[1])
         cid = "c%d" % (op[2] if len(op) > 2 else 0)
         return ["req", cid, encj(v)] if ok else ["reqbad", cid]
+    if k == "xreq":
+        return ["xreq", "c%d" % op[2], encj(json.loads(json.dumps(op[1]))), op[3]]
     if k == "sig":
         return ["sig", op[1]]
     if k in ("start", "check", "wake"):
